@@ -6,6 +6,7 @@ from . import core_alloc as ca
 from . import core_strat as st_
 from . import algos_sched as sched
 from . import algos_flow as flow
+from . import core_ops as ops
 
 UPD = [("date", "date"), ("data", "none"), ("inow", "optint")]
 
@@ -50,6 +51,10 @@ def build():
     verifiers.pop("bt.algos.RunPeriod.compare_dates")
     for c, v in flow.contracts():
         reg(c, v)
+    for c, v in ops.contracts():
+        reg(c, v)
+        if v is None:
+            verifiers.pop(c.qualname)
     inline = {"bt.core.is_zero", "bt.core.SecurityBase.commission"}
     loops = {
         ("bt.core.SecurityBase.allocate", 0): ca.ALLOC_LOOP,
